@@ -1,5 +1,6 @@
 import MobiusModel.Chat
 import MobiusModel.StalledDelivery
+import MobiusModel.Dispatch
 import MobiusModel.Generated.Consts
 import MobiusModel.Generated.Outbox
 import MobiusModel.Generated.SendShape
@@ -586,5 +587,37 @@ example : ([0, 0, 1, 0].foldl LockNet.fire ({ net := { pending := [⟨1, 10⟩, 
 example : (chatSends ChatWorld.init (demo ++ [.send 3 11 none none [0x68, 0x69]])).map (fun s => (s.to, s.item.ty)) =
     [(1, 113), (0, 0), (0, 117), (1, 0), (0, 117), (1, 117), (2, 0), (0, 118), (1, 118), (0, 106), (1, 106)] := by
   decide +kernel
+
+-- ------------------------------------------------------------------ wave e: the dispatcher in front of the goroutines
+
+/-- **Each spawned send carries its own transaction.**  `processOutbox` as a process of its own: it receives the
+    outbox's transactions one by one, each into the variable of that iteration, and starts a goroutine closing over it.
+    Under every schedule of receives, completed writes, stalls and resumes, what was delivered, what is blocked in a
+    goroutine and what is still in the outbox are together a permutation of what the handlers put on the outbox. -/
+theorem dispatcher_conserves_transactions (ob : List (Send Out)) (evs : List Dispatch.Ev) :
+    (Dispatch.all (Dispatch.run { outbox := ob } evs)).Perm ob := by
+  simpa [Dispatch.all] using Dispatch.conservation ({ outbox := ob } : Dispatch.St Out) evs
+
+/-- Hence for a chat history: once the dispatcher has received everything and no goroutine is blocked, every
+    connection's inbox is — as a multiset, under every schedule — exactly the transactions the history addressed to it,
+    each once (a burst of any length to any number of readers included). -/
+theorem burst_inboxes_exactly_once (es : List ChatEv) (evs : List Dispatch.Ev) (k : Nat)
+    (hr : (Dispatch.run { outbox := chatSends ChatWorld.init es } evs).outbox = [])
+    (hp : (Dispatch.run { outbox := chatSends ChatWorld.init es } evs).net.pending = []) :
+    ((Dispatch.run { outbox := chatSends ChatWorld.init es } evs).net.inbox k).Perm
+      (((chatSends ChatWorld.init es).filter (·.to == k)).map (·.item)) :=
+  Dispatch.inbox_exactly_once _ evs k hr hp
+
+/-- The contrast (NOT the code): one variable shared by all iterations.  Two transactions, the second received
+    before the first goroutine read the variable: one reader gets its line twice, the other nothing. -/
+theorem shared_variable_dispatcher_loses_and_duplicates :
+    let s := Shared.run ({ outbox := [⟨1, 10⟩, ⟨2, 20⟩] } : Shared.St Nat) [.recv, .recv, .read, .read, .fire 0, .fire 0]
+    s.outbox = [] ∧ s.unread = 0 ∧ s.net.pending = [] ∧ s.net.inbox 1 = [] ∧ s.net.inbox 2 = [20, 20] :=
+  Shared.loses_and_duplicates
+
+-- non-vacuity: the demo history's sends through the dispatcher, received one by one and written in reverse order
+example : let ob := chatSends ChatWorld.init (demo ++ [.send 1 11 none none [0x68, 0x69]])
+    let s := Dispatch.run { outbox := ob } ((List.replicate ob.length Dispatch.Ev.recv) ++ (List.replicate ob.length (Dispatch.Ev.fire 0)))
+    s.outbox = [] ∧ s.net.pending = [] ∧ s.net.delivered.length = ob.length := by decide +kernel
 
 end Mobius.C12
